@@ -21,6 +21,7 @@ type vReplayFile struct {
 	Kind    string            `json:"kind"`
 	Model   map[string]uint64 `json:"model"`
 	Region  string            `json:"region"`
+	Tier    string            `json:"tier"`
 }
 
 type vFailure struct {
@@ -155,6 +156,14 @@ func vCatch(f func()) (panicked bool, msg string) {
 	}()
 	f()
 	return
+}
+
+// vTier is 0 for the quick tier and 1 for the thorough tier.
+func vTier() int {
+	if vReplay != nil && vReplay.Tier == "thorough" {
+		return 1
+	}
+	return 0
 }
 
 func vSymbolic() bool             { return false }
